@@ -28,6 +28,8 @@ import (
 	"sort"
 	"strings"
 	"sync"
+	"sync/atomic"
+	"syscall"
 	"time"
 
 	"github.com/ErdemOzgen/blackdagger/internal/agent"
@@ -57,6 +59,8 @@ type Obs struct {
 	SockAfter  bool     `json:"sock_after"`  // ... still exists after Run returned
 	Final      string   `json:"final"`       // agent.Status().Status text after the run ("" if unavailable)
 	DurationMs int64    `json:"duration_ms"`
+	Hung       bool     `json:"hung"`        // Run did not return within the watchdog time (the log is what was seen until then)
+	Stopped    bool     `json:"stopped"`     // ... and returned after the driver sent it SIGTERM
 }
 
 type Case struct {
@@ -265,6 +269,7 @@ type runner struct {
 	agt  *agent.Agent
 	done chan struct{}
 	obs  Obs
+	held bool
 }
 
 func errKind(err error) string {
@@ -365,14 +370,34 @@ func (r *runner) run() {
 	}()
 	t0 := time.Now()
 	var err error
-	func() {
+	fin := make(chan error, 1)
+	go func() {
+		var e error
 		defer func() {
 			if p := recover(); p != nil {
-				err = fmt.Errorf("PANIC: %v", p)
+				e = fmt.Errorf("PANIC: %v", p)
 			}
+			fin <- e
 		}()
-		err = r.agt.Run(context.Background())
+		e = r.agt.Run(context.Background())
 	}()
+	// watchdog: a run that does not come back is recorded as hung, asked to stop, and abandoned if it will not
+	select {
+	case err = <-fin:
+	case <-time.After(r.watchdog()):
+		r.obs.Hung = true
+		go func() {
+			defer func() { _ = recover() }()
+			r.agt.Signal(syscall.SIGTERM)
+		}()
+		select {
+		case err = <-fin:
+			r.obs.Stopped = true
+		case <-time.After(3 * time.Second):
+			atomic.AddInt32(&abandoned, 1)
+			err = errors.New("HUNG: agent.Run did not return")
+		}
+	}
 	r.obs.DurationMs = time.Since(t0).Milliseconds()
 	close(stop)
 	wg.Wait()
@@ -398,6 +423,16 @@ func (r *runner) run() {
 		defer func() { _ = recover() }()
 		r.obs.Final = r.agt.Status().Status.String()
 	}()
+}
+
+var abandoned int32
+
+// the first run of the class `running` is held by the driver itself; its watchdog starts at the release
+func (r *runner) watchdog() time.Duration {
+	if r.held {
+		return 40 * time.Second
+	}
+	return 6 * time.Second
 }
 
 func (r *runner) waitFor(ev string, d time.Duration) bool {
@@ -572,6 +607,7 @@ func running(k int, rng *vh.Rng, work string, sub string, retry bool) Case {
 		c.Infra = err.Error()
 		return c
 	}
+	first.held = blockAt != ""
 	go first.run()
 	cli := client.New(s.stores(), "", s.dir, lg)
 	status := func() string {
@@ -688,18 +724,38 @@ func main() {
 		}
 	}
 	res := make([]Case, len(jobs))
+	fini := make([]int32, len(jobs))
 	sem := make(chan struct{}, 8)
 	var wg sync.WaitGroup
-	for k, j := range jobs {
-		wg.Add(1)
-		sem <- struct{}{}
-		go func(k int, j job) {
-			defer wg.Done()
-			defer func() { <-sem }()
-			res[k] = j(k, vh.NewRng(seed).Fork(uint64(k)))
-		}(k, j)
+	allDone := make(chan struct{})
+	go func() {
+		for k, j := range jobs {
+			wg.Add(1)
+			sem <- struct{}{}
+			go func(k int, j job) {
+				defer wg.Done()
+				defer func() { <-sem }()
+				c := j(k, vh.NewRng(seed).Fork(uint64(k)))
+				res[k] = c
+				atomic.StoreInt32(&fini[k], 1)
+			}(k, j)
+		}
+		wg.Wait()
+		close(allDone)
+	}()
+	limit := 240 * time.Second
+	if tier == "thorough" {
+		limit = 25 * time.Minute
 	}
-	wg.Wait()
+	select {
+	case <-allDone:
+	case <-time.After(limit): // global watchdog: emit what is there
+	}
+	for k := range res {
+		if atomic.LoadInt32(&fini[k]) == 0 {
+			res[k] = Case{K: k, Class: "?", Infra: "driver time limit reached before this case finished"}
+		}
+	}
 	for _, c := range res {
 		if c.Log == nil {
 			c.Log = []string{}
@@ -712,4 +768,6 @@ func main() {
 		}
 		out.Put(c)
 	}
+	out.Close()
+	os.Exit(0) // abandoned (hung) agent goroutines must not keep the process alive
 }
